@@ -221,6 +221,8 @@ fn cmd_gen(args: &[String]) {
     let max_cyclic: usize = arg(args, "--max-cyclic", "3").parse().unwrap();
     // wall-clock cap for one SeaORM render in a child process (an ordinary render takes a few milliseconds)
     let cap_ms: u64 = arg(args, "--cap-ms", "2500").parse().unwrap();
+    // renders per table and Python ORM whose import blocks are all handed to K-exp
+    let py_reps: usize = arg(args, "--py-reps", "8").parse().unwrap();
     let outdir = PathBuf::from(arg(args, "--out", "out"));
     let corpus = arg(args, "--corpus", "");
     std::fs::create_dir_all(&outdir).unwrap();
@@ -234,6 +236,12 @@ fn cmd_gen(args: &[String]) {
         // corpus files hold model files as the user writes them: normalise like `vespertide export`
         let slice = advgen::normalized_slice(&ms).unwrap_or(ms);
         sets.push((format!("corpus:{}", name), slice));
+    }
+    // systematic import coverage: every pair of import features in one table, singles, all-at-once
+    if arg(args, "--import-pairs", "1") == "1" {
+        for m in advgen::gen_import_sets(6) {
+            sets.push(("import-pairs".to_string(), m));
+        }
     }
     let mut cyclic_budget = max_cyclic;
     for k in 0..n {
@@ -292,9 +300,28 @@ fn cmd_gen(args: &[String]) {
             // --- Python ORMs (they ignore the slice)
             let sa = render(Orm::SqlAlchemy, t, m);
             let sm = render(Orm::SqlModel, t, m);
-            let (sa_imports, sa_class) = sa.as_ref().map(|x| py_header(x)).unwrap_or_default();
-            let (sm_imports, _) = sm.as_ref().map(|x| py_header(x)).unwrap_or_default();
-            xts.push(format!("(mkXT {} {} {} {})", sea_g, sa_imports.gs(), sm_imports.gs(), sa_class.gs()));
+            let (_, sa_class) = sa.as_ref().map(|x| py_header(x)).unwrap_or_default();
+            // every distinct import block over the repeated renders goes to K-exp (order inside the lines included)
+            let mut sa_variants: Vec<Vec<String>> = vec![];
+            let mut sm_variants: Vec<Vec<String>> = vec![];
+            let mut py_rep = std::collections::BTreeMap::new();
+            for (orm, oname, first, variants) in [(Orm::SqlAlchemy, "sqlalchemy", &sa, &mut sa_variants), (Orm::SqlModel, "sqlmodel", &sm, &mut sm_variants)] {
+                let mut same = true;
+                for k in 0..py_reps {
+                    let x = if k == 0 { first.clone() } else { render(orm, t, m) };
+                    if x != *first {
+                        same = false;
+                    }
+                    if let Ok(text) = &x {
+                        let h = py_header(text).0;
+                        if !variants.contains(&h) {
+                            variants.push(h);
+                        }
+                    }
+                }
+                py_rep.insert(oname, same);
+            }
+            xts.push(format!("(mkXT {} {} {} {})", sea_g, sa_variants.gs(), sm_variants.gs(), sa_class.gs()));
             // --- O-C18 in process: repeated renders and permuted slices
             let mut c18 = serde_json::Map::new();
             for (orm, oname) in ORMS {
@@ -302,7 +329,7 @@ fn cmd_gen(args: &[String]) {
                     continue;
                 }
                 let base = render(orm, t, m);
-                let mut rep = true;
+                let mut rep = py_rep.get(oname).copied().unwrap_or(true);
                 for _ in 0..3 {
                     if render(orm, t, m) != base {
                         rep = false;
@@ -431,7 +458,7 @@ fn cmd_gen(args: &[String]) {
         }
     }
     // FK-shaped sets (including cyclic ones) also go through every stage
-    for (tag, m) in sets.iter().filter(|(t, _)| !t.starts_with("corpus:")).take(nevo) {
+    for (tag, m) in sets.iter().filter(|(t, _)| !t.starts_with("corpus:") && t != "import-pairs").take(nevo) {
         push16(&mut c16, &format!("models:{}", tag), m, &vec![], true);
     }
     std::fs::write(outdir.join("c16cases.jsonl"), c16).unwrap();
